@@ -409,12 +409,38 @@ func (un *Unit) inline(fr *Frame, st *State, callee *ssa.Function, binds []Val, 
 	if fc := un.lookupFuncContract(callee); fc != nil {
 		nf.contract = fc
 	}
+	pre := st.clone()
+	var inlFC *FuncContract
+	if nf.contract != nil && nf.contract.Inline && callee != un.fn {
+		inlFC = nf.contract
+		// the inlined callee's own (separately proved) contract: its requires are this caller's duty ...
+		sc := un.scopeFor(nf, st, st, nil)
+		for _, cl := range inlFC.Clauses {
+			if cl.Kind != "requires" {
+				continue
+			}
+			t, _ := un.evalSpec(cl.E, sc)
+			name := un.uniqueName(fmt.Sprintf("%s/call-pre/%s:%s", funcKey(un.fn), shortKey(funcKey(callee)), labelOr(cl.Label, "requires")))
+			un.oblige(st, "pre", name, cl.Props, t, callee.Pos(), cl.Text)
+		}
+	}
 	rets, out := un.execFunc(nf, st)
 	if un.outside != "" {
 		return Val{t: "0"}
 	}
 	// execFunc returns a new state object; copy back into st
 	st.guard, st.heap, st.base = out.guard, out.heap, out.base
+	if inlFC != nil {
+		// ... and its ensures, proved for the callee as a unit, are available here as lemmas about this very execution
+		sc := un.scopeFor(nf, st, pre, rets)
+		for _, cl := range inlFC.Clauses {
+			if cl.Kind != "ensures" || cl.Ghost {
+				continue
+			}
+			t, _ := un.evalSpec(cl.E, sc)
+			un.assume(st, t)
+		}
+	}
 	switch len(rets) {
 	case 0:
 		return Val{t: "0"}
@@ -747,6 +773,10 @@ func (un *Unit) modelCall(fr *Frame, st *State, callee *ssa.Function, full strin
 		un.assume(st, "(>= "+t+" "+old+")")
 		un.set(st, "G_clock", t)
 		un.assumed["time.Now returns a non-decreasing clock value (monotone wall clock)"] = true
+		for f := fr; f != nil; f = f.parent {
+			f.calls["time.Now"]++
+			f.callRes[fmt.Sprintf("Now#%d", f.calls["time.Now"])] = []Val{{t: t, typ: types.Typ[types.Int64], callGuard: st.guard}}
+		}
 		return Val{t: t}, true
 	case "time.Unix":
 		return Val{t: "(+ (* " + args[0].t + " 1000000000) " + args[1].t + ")"}, true
